@@ -3,6 +3,7 @@ import Ledger.Base.Regex
 import Ledger.Chart.Model
 import Ledger.Chart.Enforce
 import Ledger.Chart.Posting
+import Ledger.Chart.SchemaJson
 import Ledger.Generated.Grammar
 
 /-!
@@ -13,6 +14,7 @@ Handlers of the chart / schema area (`ldriver_chart`):
 * `patterns`   – account / asset / chart-segment patterns, lexer rules, chart patterns (C28)
 * `scriptlit`  – scripts with literal asset / account at the lexer edge, end to end (C28)
 * `postingval` – `Postings.Validate` (C28)
+* `schemart`   – SchemaData (chart + templates + query templates) JSON round trip (C30)
 -/
 namespace Ledger.Driver
 open Lean Ledger.Chart Ledger.Regex
@@ -481,12 +483,65 @@ def handlePostingVal : Handler := fun inp out => do
   let agree := optStrField out "panic" = "" && jsonEq (pick out ["index", "err"]) model
   pure { model, agree, nontrivial := err = "" && !ps.isEmpty, tags := [if err = "" then "valid" else err] }
 
+/-! ### schemart -/
+
+def rawJson : Option JTree → Json
+  | none => .null
+  | some v => Json.mkObj [("raw", ofTree v)]
+
+def dumpTemplates (ts : List (Key × TxTemplate)) : Json :=
+  Json.mkObj (ts.map fun (k, t) => (String.ofList k,
+    Json.mkObj [("description", t.description), ("script", t.script), ("runtime", t.runtime)]))
+
+def dumpQueries (qs : List (Key × QueryTemplate)) : Json :=
+  Json.mkObj (qs.map fun (k, q) => (String.ofList k, Json.mkObj [
+    ("description", q.description), ("resource", q.resource), ("params", rawJson q.params),
+    ("vars", Json.mkObj (q.vars.map fun (vk, d) => (String.ofList vk,
+      Json.mkObj [("type", d.type.toString), ("default", rawJson d.default)]))),
+    ("body", rawJson q.body)]))
+
+def handleSchemaRt : Handler := fun inp out => do
+  let doc ← strField inp "doc"
+  let tree := toTree (← Json.parse doc)
+  if (patternsOf tree).any unsupportedPattern then
+    return { model := Json.null, agree := true, nontrivial := false, tags := ["skipped:pattern-outside-subset"] }
+  let gErr := optStrField out "err"
+  let gPanic := optStrField out "panic"
+  match unmarshalSchemaData liteOps tree with
+  | .error e =>
+    let kind : String := match e with | .chart _ => "chart" | .badType => "badType" | .badVarType => "badVarType"
+    pure { model := Json.mkObj [("err", Json.str kind)], agree := gPanic = "" && gErr ≠ "", nontrivial := false,
+           tags := ["reject:" ++ kind] }
+  | .ok s =>
+    let remarshal := ofTree (marshalSchemaData s)
+    let model := Json.mkObj [("err", ""), ("chart", dumpChart s.chart), ("transactions", dumpTemplates s.transactions),
+      ("queries", dumpQueries s.queries), ("remarshal", remarshal)]
+    let agree := gPanic = "" && gErr = "" && jsonEq (pick out ["chart", "transactions", "queries", "remarshal"])
+      (pick model ["chart", "transactions", "queries", "remarshal"])
+    let rtModel := match unmarshalSchemaData liteOps (marshalSchemaData s) with
+      | .ok s' => jsonEq (dumpChart s'.chart) (dumpChart s.chart) && jsonEq (dumpTemplates s'.transactions) (dumpTemplates s.transactions)
+          && jsonEq (dumpQueries s'.queries) (dumpQueries s.queries)
+      | .error _ => false
+    let gB (k : String) : Bool := match out.getObjVal? k with | .ok (.bool b) => b | _ => false
+    let prop := gPanic = "" && optStrField out "rtErr" = "" && gB "rtSame" && gB "rtMarshalSame" &&
+      gB "colChartSame" && gB "colTxSame" && gB "colQSame"
+    let valid := optStrField out "invalid" = ""
+    pure { model, agree, prop, propModel := rtModel,
+           nontrivial := !s.transactions.isEmpty || !s.queries.isEmpty,
+           tags := ["accept", if valid then "NewSchema:ok" else "NewSchema:rejected"] ++
+             (if s.transactions.isEmpty then [] else ["templates"]) ++ (if s.queries.isEmpty then [] else ["queries"]) ++
+             (if s.queries.any (fun kq => !kq.2.vars.isEmpty) then ["query-vars"] else []) ++
+             (if s.queries.any (fun kq => kq.2.params.isSome || kq.2.body.isSome) then ["raw-members"] else []),
+           note := if prop then "" else "C30: schema data changes across the JSON round trip",
+           sig := if prop then "" else "C30:schema-roundtrip" }
+
 def chartHandlers : List (String × Handler) := [
   ("chartrt", handleChartRt),
   ("enforce", handleEnforce),
   ("patterns", handlePatterns),
   ("scriptlit", handleScriptLit),
-  ("postingval", handlePostingVal)
+  ("postingval", handlePostingVal),
+  ("schemart", handleSchemaRt)
 ]
 
 end Ledger.Driver
